@@ -313,7 +313,11 @@ def gen_scenario(seed, cfg):
     texts = []
     for _ in range(ntexts):
         family = sim.weighted('family', [(4, 'property'), (2, 'predicate'), (3, 'condition')])
-        if sim.coin('extreme', 0.12):
+        if texts and sim.coin('sibling', 0.22):
+            base = sim.pick('sibof', texts)
+            family = base['family']
+            t, tag = gen.sibling_text(sim, base['text']), 'sibling'
+        elif sim.coin('extreme', 0.12):
             t, tag = _extreme_text(sim, family)
         elif sim.coin('valid', 0.5):
             if family == 'property':
